@@ -119,7 +119,31 @@ pub fn derive_paths(tree: &MNode, ch: &mut Choices, opts: PathOpts) -> Vec<Strin
                 None => format!("{}..b", b),
             }
         };
-        let s = match ch.pick(11) {
+        // an existing element path with its last index spelled non-canonically: it names nothing
+        let noncanon = |ch: &mut Choices, k: usize| -> String {
+            let idx_paths: Vec<&Path> = paths.iter().filter(|p| matches!(p.last(), Some(crate::tree::Seg::I(_)))).collect();
+            let b = if idx_paths.is_empty() { base.clone() } else { render_path(idx_paths[ch.pick(idx_paths.len())], &mut Choices::new(&[])) };
+            if b.ends_with(']') {
+                if let Some(p) = b.rfind('[') {
+                    let digits = &b[p + 1..b.len() - 1];
+                    let alt = match k {
+                        0 => format!("0{}", digits),
+                        1 => format!("+{}", digits),
+                        2 => format!(" {}", digits),
+                        3 => format!("00{}", digits),
+                        _ => format!("{}.0", digits),
+                    };
+                    return format!("{}[{}]", &b[..p], alt);
+                }
+            }
+            format!("{}[0{}]", b, k)
+        };
+        let s = match ch.pick(16) {
+            11 => noncanon(ch, 0),
+            12 => noncanon(ch, 1),
+            13 => noncanon(ch, 2),
+            14 => noncanon(ch, 3),
+            15 => noncanon(ch, 4),
             8 => doubled(&base, 2),
             9 => doubled(&base, 3),
             10 => base.replacen("$.", "$..", 1),
